@@ -99,7 +99,8 @@ def _repdot(v, params):
         if not any(_re.search(r'(?s).\.{1,2}\n?$', x) for x in segs_n):
             return False
     else:
-        if not any('.' in x[1:] and x[:1] != '.' for x in segs_n):
+        # an interior dot; for C03's "refused" cases the segment may itself start with a (written, accepted) dot
+        if not any('.' in x[1:] and (x[:1] != '.' or v['kind'] == 'refused') for x in segs_n):
             return False
     pols = set()
     cur = []
